@@ -390,7 +390,7 @@ class C02(Property):
             "DEFINE aliases replacing random keyword-free token spans at every syntactic position incl. inside other "
             "definitions, DESCRIPTION/EXAMPLE/RELATED/SUPERIORS/EXTENDERS sections, dyadic multipliers, every kind of "
             "whitespace and # comments between tokens) checked against the grammar oracle (Lean `shape`); all or a "
-            "sample of their single-token corruptions (delete / duplicate / swap / replace by every token kind / "
+            "sample of their single-token corruptions (delete / duplicate / repeat a list element / swap / replace by every token kind / "
             "stray character) and targeted ill-formed variants (every class the property lists) checked against the "
             "model and the well-formedness predicate; the three shipped rule files with the real signatures; the "
             "tokeniser alone on random character strings; thorough/deep: every token string of length <= 6 (5) over "
@@ -442,6 +442,8 @@ class C02(Property):
         muts: List[Tuple[str, int, Optional[str]]] = []
         for i in range(len(pairs)):
             muts += [("del", i, None), ("dup", i, None)]
+            if i and pairs[i - 1][1] in ("SUPERIORS", "RELATED", ",", "["):
+                muts.append(("dupc", i, None))      # repeat an element of a comma separated list: `x` -> `x, x`
             if i + 1 < len(pairs):
                 muts.append(("swap", i, None))
             muts += [("rep", i, r) for r in REPLACEMENTS if r != pairs[i][1]]
@@ -453,6 +455,8 @@ class C02(Property):
                 new = pairs[:i] + pairs[i + 1:]
             elif op == "dup":
                 new = pairs[:i + 1] + [(" ", pairs[i][1])] + pairs[i + 1:]
+            elif op == "dupc":
+                new = pairs[:i + 1] + [("", ","), (" ", pairs[i][1])] + pairs[i + 1:]
             elif op == "swap":
                 new[i], new[i + 1] = (pairs[i][0], pairs[i + 1][1]), (pairs[i + 1][0], pairs[i][1])
             elif op == "rep":
@@ -530,6 +534,20 @@ class C02(Property):
         earlier = [items[q][1] for q in rule_idx if q < k]
         if earlier:
             yield emit(with_item(head + ["SUPERIORS", earlier[0], ",", earlier[0]] + tail), "superior-duplicate")
+        # a repeated name in a chain of >= 3 rules: the named rule inherits superiors of its own, which must not mask the repeat
+        cat = it[3]
+
+        def chain_rule(nm: str, sup: List[str]) -> List[str]:
+            return ["RULE", nm, "CATEGORY", cat] + (["SUPERIORS"] + sup if sup else []) + \
+                   ["CUTOFF", "5", "NEIGHBOURHOOD", "5", "CONDITIONS", rng.choice(PROFILES)]
+        chain = [chain_rule("ch_top", []), chain_rule("ch_mid", ["ch_top"]), chain_rule("ch_up", ["ch_mid"])]
+        repeats = rng.choice([
+            [chain_rule("ch_low", ["ch_mid", ",", "ch_mid"])],
+            [chain_rule("ch_low", ["ch_mid", ",", "ch_top", ",", "ch_mid"])],
+            [chain_rule("ch_low", ["ch_up", ",", "ch_up"])],
+            [chain_rule("ch_low", ["ch_up", ",", "ch_up", ",", "ch_up"])],
+            [chain_rule("ch_low", ["ch_up", ",", "ch_mid", ",", "ch_up", ",", "ch_mid"])]])
+        yield emit(items + chain + repeats, "superior-duplicate-chain", split=rng.random() < 0.5)
         following = [items[q][1] for q in rule_idx if q > k]
         if following:
             yield emit(with_item(head + ["SUPERIORS", following[0]] + tail), "superior-defined-later")
@@ -957,6 +975,10 @@ class C02(Property):
             if "expect_error" in case:
                 spec_ok = False
                 detail = f"ill-formed input ({case['expect_error']}) was accepted; " + detail
+            if spec.get("sup_lists_distinct") is False:
+                spec_ok = False
+                detail = ("a text whose SUPERIORS list names a rule twice was accepted (Lean spec `supListsDistinct` on "
+                          "the tokens of the text); ") + detail
         else:
             if case.get("expect") is not None or "shipped" in case:
                 spec_ok = False
